@@ -255,7 +255,10 @@ impl World {
 		}
 		// close every channel still open, alternating the closing side
 		for ci in 0..self.chans.len() {
-			let closer = if ci % 2 == 0 { self.chans[ci].a } else { self.chans[ci].b };
+			let mut closer = if ci % 2 == 0 { self.chans[ci].a } else { self.chans[ci].b };
+			if self.nodes[closer].live.is_none() {
+				closer = if closer == self.chans[ci].a { self.chans[ci].b } else { self.chans[ci].a };
+			}
 			let cid = self.chans[ci].channel_id;
 			let open = self
 				.mgr(closer)
@@ -273,6 +276,8 @@ impl World {
 				break;
 			}
 			let mut activity = false;
+			let hold = self.liq_round_faults(_round as u32);
+			activity |= self.cheater_push();
 			for n in 0..n_nodes {
 				activity |= self.complete_all_monitor_writes(n);
 				self.do_persist_mgr(n);
@@ -313,7 +318,13 @@ impl World {
 			} else {
 				1
 			};
-			self.do_mine(jump);
+			if hold {
+				self.chain.mine_empty(1);
+				self.clock += 600;
+				self.out.sim_blocks += 1;
+			} else {
+				self.do_mine(jump);
+			}
 			for n in 0..n_nodes {
 				self.do_sync(n, 255);
 			}
@@ -393,6 +404,10 @@ impl World {
 		}
 		let _ = other_fees;
 		for n in 0..n_nodes {
+			if self.cheat.as_ref().map(|c| c.cheater == n).unwrap_or(false) {
+				// the cheater forfeits its channel balance
+				continue;
+			}
 			self.out.bump("oracle:wealth each node owns what it was told");
 			let scripts = self.node_scripts(n);
 			let mut owned: u64 = 0;
@@ -453,10 +468,29 @@ impl World {
 				dust_allow_msat
 			));
 			if (owned as i128) < floor_sat {
-				let prop = self.loss_property(n, props);
+				let mut prop = self.loss_property(n, props);
+				let mut oracle = format!("{}-W node ends with less than the library told it", prop);
+				// the recipient failed a payment back, restarted from a ChannelManager snapshot older
+				// than that decision, was offered the payment again and claimed it
+				let refailed: Vec<usize> = self
+					.pays
+					.iter()
+					.filter(|p| p.to == n && !p.ev.claimed.is_empty())
+					.filter(|p| matches!((p.fail_called, p.claim_called), (Some(f), Some(c)) if f < c))
+					.map(|p| p.idx)
+					.collect();
+				let mut ctx = String::new();
+				if !refailed.is_empty() {
+					prop = "C04";
+					oracle = "C04-W PaymentClaimed for a payment that had already been failed back".to_string();
+					ctx = format!(
+						" [pay {:?}: fail_htlc_backwards was called, the node restarted from a ChannelManager snapshot older than that call, PaymentClaimable was shown again, claim_funds produced PaymentClaimed although the HTLC had been removed]",
+						refailed
+					);
+				}
 				self.violate(
 					prop,
-					&format!("{}-W node ends with less than the library told it", prop),
+					&oracle,
 					format!(
 						"node {} owns {} sat on chain after everything is closed and swept, but its opening funds plus what PaymentClaimed/PaymentForwarded/PaymentSent events reported amount to {} sat (allowed on-chain fees {} sat, dust {} msat): {} sat are missing",
 						n,
@@ -465,7 +499,7 @@ impl World {
 						fee_allow,
 						dust_allow_msat,
 						floor_sat - owned as i128
-					),
+					) + &ctx,
 				);
 			}
 		}
